@@ -202,7 +202,7 @@ def run(only=None):
     out = {}
     errors = []
     for name, fn in _targets().items():
-        if only and name not in only:
+        if only is not None and name not in only:
             continue
         try:
             text = fn()
